@@ -147,7 +147,8 @@ func invcdfReplay(in io.Reader, raw bool, args []string) (*Summary, error) {
 			if g := inv(1); g != want1 {
 				sum.viol("InvCDF-1", c, "offset %v: InvCDF(1)=%v want %v", off, g, want1)
 			}
-			for _, y := range []float64{-0.25, 1.5, math.NaN(), math.Inf(1)} {
+			// outside [0,1] by any amount: the float neighbours of 0 and 1, subnormals, ordinary and infinite values
+			for _, y := range []float64{-0.25, 1.5, math.NaN(), math.Inf(1), math.Inf(-1), math.Nextafter(1, 2), 1 + 1e-15, -5e-324, -1e-300, -1e-16, -1e-15, -1e-9, 1 + 1e-9} {
 				if g := inv(y); !math.IsNaN(g) {
 					sum.viol("InvCDF-nan", c, "InvCDF(%v)=%v want NaN", y, g)
 				}
@@ -276,6 +277,42 @@ func invcdfReplay(in io.Reader, raw bool, args []string) (*Summary, error) {
 			}
 		}
 	})
+	// Rand of the built-in continuous distributions (whatever generator stats.Rand picks for them) against their own CDF:
+	// DKW band with false-alarm probability 1e-9, 100k seeded draws; determinism with respect to the source
+	func() {
+		defer func() {
+			if r := recover(); r != nil {
+				sum.viol("panic", json.RawMessage(`{"builtin":"rand"}`), "panic: %v", r)
+			}
+		}()
+		const N = 100000
+		band := math.Sqrt(math.Log(2e9) / (2 * N))
+		for _, d := range []stats.DistCommon{stats.TDist{V: 3}, stats.TDist{V: 2.5}, stats.TDist{V: 1.5}, stats.TDist{V: 4.75}, stats.TDist{V: 0.5}, stats.TDist{V: 30.25},
+			stats.NormalDist{Mu: -2, Sigma: 0.5}, stats.NormalDist{Mu: 1e6, Sigma: 1e3}} {
+			gen := stats.Rand(d)
+			r1, r2 := rand.New(rand.NewSource(baseSeed+99)), rand.New(rand.NewSource(baseSeed+99))
+			xs := make([]float64, N)
+			for i := range xs {
+				xs[i] = gen(r1)
+				if i < 50 {
+					if b := stats.Rand(d)(r2); math.Float64bits(b) != math.Float64bits(xs[i]) {
+						sum.viol("Rand-deterministic", json.RawMessage(`{"builtin":"rand"}`), "%+v: draw %d differs between two generators on equal sources: %v vs %v", d, i, xs[i], b)
+						break
+					}
+				}
+			}
+			sort.Float64s(xs)
+			worst := 0.0
+			for i, x := range xs {
+				F := d.CDF(x)
+				worst = math.Max(worst, math.Max(float64(i)/N-F, F-float64(i+1)/N))
+			}
+			sum.Checks++
+			if !(worst <= band) {
+				sum.viol("Rand-distribution", json.RawMessage(`{"builtin":"rand"}`), "%+v: Kolmogorov distance %.5f of %d draws exceeds the DKW band %.5f", d, worst, N, band)
+			}
+		}
+	}()
 	// built-in discrete distributions through the generic routine
 	func() {
 		defer func() {
